@@ -1451,6 +1451,10 @@ pub fn suites_for(property: &str, thorough: bool) -> Vec<Suite> {
                 if f.mem.is_some() {
                     a.push(MOp::Call(9));
                 }
+                if f.limit == Some(2) && f.mem.is_none() {
+                    // an entry removed by a predicate and stored again: its old queue position must be gone
+                    a.push(MOp::InvWith(0b0010));
+                }
                 let depth = if n >= 3 { d(5, 6) } else { d(5, 7) };
                 out.push(Suite { f, f2: None, group: vec![], wash: false, prune_noops: false, alphabet: a, depth });
             }
@@ -1490,6 +1494,11 @@ pub fn suites_for(property: &str, thorough: bool) -> Vec<Suite> {
                 let mut a = vec![MOp::Call(1), MOp::Call(2)];
                 if thorough || f.limit == Some(2) {
                     a.push(MOp::Call(3));
+                }
+                if f.mem.is_some() {
+                    // key 7: every refreshed value is ten bytes larger than the first one, so a refresh can push the
+                    // total over the budget while still fitting alone
+                    a.push(MOp::Call(7));
                 }
                 if f.ttl.is_some() {
                     a.push(MOp::Tick);
